@@ -152,7 +152,11 @@ def c06_kinds(n, seed, procs):
     fn = pep.declare_function(ConvexFunction)
     con = (e <= f)
     nonnum = {"None": None, "str": "s", "list": [1], "dict": {}, "tuple": (1, 2), "Constraint": con, "Function": fn, "complex": 1j}
-    num = {"np.int64": np.int64(3), "np.float64": np.float64(2.5), "bool": True, "np.bool": np.bool_(True), "int": 3, "float": 2.5}
+    num = {"np.int64": np.int64(3), "np.float64": np.float64(2.5), "bool": True, "np.bool": np.bool_(True), "int": 3, "float": 2.5,
+           # fixed-width numpy scalars and exact rationals: refused, or accepted with the meaning of the NUMBER (a coefficient that
+           # stays a 16 / 32-bit scalar wraps around or rounds in the arithmetic done on the result afterwards)
+           "np.int32": np.int32(3), "np.int16": np.int16(3), "np.uint8": np.uint8(3), "np.float32": np.float32(2.5), "np.float16": np.float16(2.5),
+           "Fraction": Fr(5, 2)}
     ops = {"+": operator.add, "-": operator.sub, "*": operator.mul, "/": operator.truediv, "**": operator.pow,
            "<=": operator.le, ">=": operator.ge, "==": operator.eq, "<": operator.lt, ">": operator.gt}
     fails, cells = [], 0
@@ -201,6 +205,14 @@ def c06_kinds(n, seed, procs):
                             a, b = (rv, kv) if side == "L" else (kv, rv)
                             want = {"+": a + b, "-": a - b, "*": a * b, "/": (a / b if side == "L" else None)}.get(on)
                             ok = want is not None and abs(float(eval_e(res, V, F) - want)) < 1e-12
+                        if ok and not isinstance(res, Constraint) and on != "**":
+                            # the object obtained keeps its meaning under further arithmetic at other magnitudes: times 2^32 (in two
+                            # steps), times 1 + 2^-30, divided by 2^20
+                            ev = (lambda o_: eval_p(o_, V)) if rname == "Point" else (lambda o_: [eval_e(o_, V, F)])
+                            base = ev(res)
+                            for fn_, fac in ((lambda o_: (o_ * 65536) * 65536, Fr(2 ** 32)), (lambda o_: o_ * (1 + 2.0 ** -30), 1 + Fr(1, 2 ** 30)), (lambda o_: o_ / 1048576, Fr(1, 2 ** 20))):
+                                got2 = ev(fn_(res))
+                                if any(abs(float(g - fac * b)) > 1e-12 * max(1.0, abs(float(fac * b))) for g, b in zip(got2, base)): ok = False
                     except Exception as ex:
                         ok = False
                     if not ok:
